@@ -587,10 +587,22 @@ def splice_spec(item, pc, text):
     pc.insert(t[p].e, "\n" + text.rstrip() + "\n", "R-SPLICE")
 
 
-def splice_loop(item, pc, ordinal, text):
+def splice_loop(item, pc, ordinal, text, iter_name=None):
     ls = loops_of(item)
     if ordinal < 1 or ordinal > len(ls):
         raise ExtractError(f"`{item.name}`: loop #{ordinal} not found (function has {len(ls)} loops)")
+    if iter_name:
+        # `for x in EXPR` -> `for x in NAME: EXPR` (names Verus's ghost iterator; specification only)
+        src, t = item.src, item.src.toks
+        k = ls[ordinal - 1]
+        if t[k].text != "for":
+            raise ExtractError("iter= only applies to for loops")
+        j = k + 1
+        while not (t[j].kind == "ident" and t[j].text == "in"):
+            if t[j].text in OPEN:
+                j = src.match(j)
+            j += 1
+        pc.insert(t[src.sig(j + 1)].s, f"{iter_name}: ", "R-SPLICE", "ghost iterator name")
     b = loop_body_open(item.src, ls[ordinal - 1])
     p = item.src.prev_sig(b)
     pc.insert(item.src.toks[p].e, "\n" + text.rstrip() + "\n", "R-SPLICE")
@@ -622,14 +634,14 @@ def make_xbody(item, pc):
 
 
 def project_fields(item, pc, keep):
-    """R-PROJ: drop struct fields that are not in `keep`."""
+    """R-PROJ: drop struct fields that are not in `keep` (with their doc comments and attributes)."""
     src, t = item.src, item.src.toks
     if item.body_open is None or t[item.body_open].text != "{":
         raise ExtractError("R-PROJ: only brace structs")
     i = src.sig(item.body_open + 1)
     seen = set()
+    prev_end = t[item.body_open].e
     while i < item.body_close:
-        fstart = i
         # attributes / visibility
         while t[i].text == "#":
             j = src.sig(i + 1)
@@ -651,15 +663,15 @@ def project_fields(item, pc, keep):
             elif t[j].text == "," and angle == 0:
                 break
             j += 1
-        fend = j if j < item.body_close else src.prev_sig(item.body_close)
+        if j < item.body_close:
+            this_end = t[j].e
+        else:
+            this_end = t[src.prev_sig(item.body_close)].e
         seen.add(fname)
         if fname not in keep:
-            nxt = src.sig(fend + 1)
-            pc.delete(t[fstart].s, t[min(nxt, item.body_close)].s, "R-PROJ", f"field {fname}")
-        else:
-            # drop attributes/doc comments on kept fields too (R-ATTR) -- comments are harmless, attributes are kept
-            pass
-        i = src.sig(fend + 1)
+            pc.delete(prev_end, this_end, "R-PROJ", f"field {fname}")
+        prev_end = this_end
+        i = src.sig(j + 1) if j < item.body_close else item.body_close
     missing = set(keep) - seen
     if missing:
         raise ExtractError(f"R-PROJ: struct {item.name} has no field(s) {sorted(missing)}")
@@ -699,3 +711,60 @@ def drop_text(item, pc, literal, rule, note=""):
         raise ExtractError(f"{rule}: header of `{item.name or item.header_norm()[:40]}` must contain {literal!r} exactly once")
     off = s0 + hdr.index(literal)
     pc.delete(off, off + len(literal), rule, note)
+
+
+# ---------------------------------------------------------------------------
+# R-MACRO: instantiate a single-arm macro_rules! body by substituting its `$name:ident` metavariables, as rustc does.
+
+
+def macro_params(src, item):
+    t = src.toks
+    i = src.sig(item.body_open + 1)
+    if t[i].text != "(":
+        raise ExtractError("R-MACRO: unexpected macro shape")
+    close = src.match(i)
+    names = []
+    j = i + 1
+    while j < close:
+        if t[j].text == "$":
+            names.append(t[j + 1].text)
+            k = src.sig(j + 2)
+            if t[k].text != ":" or t[src.sig(k + 1)].text != "ident":
+                raise ExtractError("R-MACRO: only `$x:ident` parameters are supported")
+        j += 1
+    return names
+
+
+def expand_macro(src, item, subst):
+    t = src.toks
+    names = macro_params(src, item)
+    if set(names) != set(subst):
+        raise ExtractError(f"R-MACRO: parameters {names} vs substitution {sorted(subst)}")
+    i = src.sig(item.body_open + 1)
+    close = src.match(i)
+    j = src.sig(close + 1)
+    if not (t[j].text == "=" and t[j + 1].text == ">"):
+        raise ExtractError("R-MACRO: expected `=>`")
+    b = src.sig(j + 2)
+    bclose = src.match(b)
+    # single arm only
+    k = src.sig(bclose + 1)
+    if t[k].text == ";":
+        k = src.sig(k + 1)
+    if k != item.body_close:
+        raise ExtractError("R-MACRO: macro has more than one arm")
+    out = []
+    x = b + 1
+    while x < bclose:
+        if t[x].text == "$" and t[x + 1].kind == "ident":
+            name = t[x + 1].text
+            if name not in subst:
+                raise ExtractError(f"R-MACRO: unknown metavariable ${name}")
+            out.append(subst[name])
+            x += 2
+            continue
+        if t[x].text == "$":
+            raise ExtractError("R-MACRO: repetition or nested macro syntax is not supported")
+        out.append(t[x].text)
+        x += 1
+    return "".join(out), "macro body instantiated by textual substitution of " + ", ".join(f"${k}={v}" for k, v in subst.items())
